@@ -69,13 +69,21 @@ static void handler(const Line& t, Out& o) {
     break; }
   case 10: { get(t.at(1)).compress(); o.R(1); break; }
   case 11: { dump(get(t.at(1)), o); break; }
-  case 12: { // r2 := deserialize(serialize(r, with_buffer)); mode 0 = bytes, 1 = stream
+  case 12: { // r2 := deserialize(serialize(r, with_buffer)); mode 0 = bytes, 1 = stream, >= 2 = bytes behind a header of `mode` bytes
     td_t& s = get(t.at(1));
     bool wb = t.at(3) != 0; int mode = t.size() > 4 ? (int)t.at(4) : 0;
     std::unique_ptr<td_t> p;
     if (mode == 0) {
       auto b = s.serialize(0, wb);
       p.reset(new td_t(td_t::deserialize(b.data(), b.size())));
+    } else if (mode >= 2) { // mode = number of header bytes reserved in front of the image
+      const unsigned hdr = (unsigned)mode;
+      auto plain = s.serialize(0, wb);
+      auto b = s.serialize(hdr, wb);
+      if (b.size() != plain.size() + hdr) throw std::logic_error("header bytes not reserved");
+      for (unsigned i = 0; i < hdr; ++i) if (b[i] != 0) throw std::logic_error("header bytes written");
+      if (memcmp(b.data() + hdr, plain.data(), plain.size()) != 0) throw std::logic_error("image after the header differs");
+      p.reset(new td_t(td_t::deserialize(b.data() + hdr, b.size() - hdr)));
     } else {
       std::stringstream ss(std::ios::in | std::ios::out | std::ios::binary);
       s.serialize(ss, wb);
